@@ -17,6 +17,9 @@ pub mod analyzers;
 pub mod threadpool;
 #[path = "../reposrc/analyzers_v2/mod.rs"]
 pub mod analyzers_v2;
+#[cfg(gold_lsp_verif)]
+#[path = "../reposrc/verif_hooks.rs"]
+pub mod verif_hooks;
 
 mod wire;
 mod modes;
